@@ -82,4 +82,12 @@ CLAIMED.update({
   "note": "Cryptography is assumed (H-aead, H-gob, H-pem), not proved; the model's framing/guards are tied to aes.wrapper.go and fileoperations/wallet.go by the per-run differential check.", "design_ref": "6 C20",
  },
 })
+CLAIMED.update({
+ "C04": {
+  "engine": "purefh+coqc",
+  "technique": "Coq: injectivity of the fixed-width vertex message, what a verifying vertex/transaction pins under H-sha/H-sig, kernel-checked refutations for the two unpinned cases (known findings); mutation engine over every class of the property against real Vertex.verify + AddLeaf, decision list and byte layouts compared in coqc",
+  "text": "C04_vertex_message_injective, C04_vertex_fields_pinned (hash, transaction hash, parents, time, weight, sealer), C04_trx_fields_pinned_partial (time, amounts, hash, concatenation of the text fields), C04_unsigned_rejected, C04_verify_never_panics; C04_message_boundary_refuted and C04_receiver_strip_refuted state exactly where tamper evidence fails (both KNOWN-FINDINGs, reproduced on the real code on every run). At the ledger, C09_unverified_never_admitted: a vertex that does not verify changes nothing. The harness applies every mutation class to real signed vertices and requires rejection by Vertex.verify and by AddLeaf with an identical snapshot.",
+  "note": "sha256/ed25519/base58 are premises. The model's decision list (which checks, in which order, receiver check only when a signature is present) and both byte layouts are compared with the code on every run; ground-truth facts come from an independent re-implementation in the harness.", "design_ref": "6 C04",
+ },
+})
 NOT_YET = {}
